@@ -3,7 +3,7 @@
 # False-alarm probe: applies a behaviour-preserving change to a scratch worktree of
 # /repo's HEAD and runs all 20 checks (quick, dry) against it. Every check must
 # still exit 0; anything else is a false alarm of the machinery.
-wt=/tmp/seedtestwt
+wt=${BENIGNWT:-/tmp/seedtestwt}
 [ -d $wt ] || git -C /repo worktree add --detach $wt HEAD -q
 for d in "$@"; do
   d=$(readlink -f "$d")
